@@ -17,7 +17,7 @@ func init() {
 		Technique: "affine transfer-function summaries on SSA (packetmap.Drop / Map / direct / Reverse), must-facts (Drop only on the next in-order packet), CFG path rules and value provenance on rtpDownTrack.Write, who-may-call on the RTP write",
 		Decides: "R1.1: a successful Drop changes the state by exactly delta-1, next=seqno+1, nextPid=pid; a refused Drop stores nothing. " +
 			"R1.2: every store of Drop is dominated by seqno == m.next (an offset never changes retroactively). " +
-			"R1.3: every successful return of Map/direct is exactly seqno + (the current delta | the delta of one interval), the identity only while delta == 0 is established or after a reset; what Map returns for an in-order packet is what addMapping records ((seqno, delta), interval ending at seqno) and every such branch advances next to seqno+1; direct and Reverse use one cursor and apply an interval's delta only behind the membership test [F, F+count) with F = first (direct) or first+delta (Reverse, the image); Reverse returns seqno - delta; the interval created by the first Drop is the identity on [seqno-8192, seqno). " +
+			"R1.3: every successful return of Map/direct is exactly seqno + (the current delta | the delta of one interval), the identity only while delta == 0 and no interval was ever recorded (entries == nil), or after a reset; what Map returns for an in-order packet is what addMapping records ((seqno, delta), interval ending at seqno) and every such branch advances next to seqno+1; direct and Reverse use one cursor and apply an interval's delta only behind the membership test [F, F+count) with F = first (direct) or first+delta (Reverse, the image); Reverse returns seqno - delta; the interval created by the first Drop is the identity on [seqno-8192, seqno). " +
 			"R1.4: in Write a successful Drop or a failed Map forwards nothing; the seqno handed to the rewriter is the map's result; the un-rewritten fast path is taken only when the mapped seqno equals the source seqno, the picture-id delta is zero and no marker is to be set; only rtpDownTrack.write calls the RTP track's Write, and only Write calls it.",
 		NotDecided: []string{
 			"correctness of addMapping's interval expansion and of the ring search under reordering, duplicates and wrap-around",
@@ -33,7 +33,7 @@ func runC01(c *Ctx) {
 	c.Rule("R1.1", "E6", "transfer function of Drop", 4)
 	c.Rule("R1.2", "E2", "stores of Drop only for the next in-order packet", 3)
 	c.Rule("R1.3", "E6", "Map/direct return seqno + delta; Reverse is the affine inverse", 8)
-	c.Rule("R1.4", "E3/E4", "composition in rtpDownTrack.Write; nothing bypasses the map", 6)
+	c.Rule("R1.4", "E3/E4", "composition in rtpDownTrack.Write; nothing bypasses the map", 7)
 	dr := p.Func("packetmap", "Map", "Drop")
 	mp := p.Func("packetmap", "Map", "Map")
 	di := p.Func("packetmap", "Map", "direct")
@@ -43,101 +43,9 @@ func runC01(c *Ctx) {
 		c.Unknown("R1.1", "anchors", 0, "packetmap.Drop/Map/direct/Reverse or rtpDownTrack.Write not found")
 		return
 	}
-	fDelta := p.Field("packetmap", "Map", "delta")
-	fNext := p.Field("packetmap", "Map", "next")
-	fNextPid := p.Field("packetmap", "Map", "nextPid")
 	eng := p.Facts()
 
-	// ---- R1.1 / R1.2 : Drop ----
-	{
-		sdr := p.SSAFunc(dr.Obj)
-		seqP, pidP := ssa.Value(sdr.Params[1]), ssa.Value(sdr.Params[2])
-		// delta' = delta - 1
-		okDelta := false
-		for _, st := range storesToField(sdr, fDelta) {
-			cOld, ok := coeffOf(st.Val, func(v ssa.Value) bool { return isLoadOfField(v, fDelta) }, 0)
-			if bo, isB := st.Val.(*ssa.BinOp); ok && cOld == 1 && isB {
-				if k, isC := bo.Y.(*ssa.Const); isC && bo.Op == token.SUB && k.Int64() == 1 {
-					okDelta = true
-				}
-				if k, isC := bo.Y.(*ssa.Const); isC && bo.Op == token.ADD && k.Int64() == -1 {
-					okDelta = true
-				}
-			}
-		}
-		c.Check(okDelta && len(storesToField(sdr, fDelta)) == 1, "R1.1", "Drop: delta decreases by exactly one", dr.Pos(), "single store delta = delta - 1", "a withheld packet does not shift later numbers by exactly one")
-		okNext := false
-		for _, st := range storesToField(sdr, fNext) {
-			cs, ok := coeffOf(st.Val, func(v ssa.Value) bool { return v == seqP }, 0)
-			if bo, isB := st.Val.(*ssa.BinOp); ok && cs == 1 && isB && bo.Op == token.ADD {
-				if k, isC := bo.Y.(*ssa.Const); isC && k.Int64() == 1 {
-					okNext = true
-				}
-			}
-		}
-		c.Check(okNext && len(storesToField(sdr, fNext)) == 1, "R1.1", "Drop: next = seqno + 1", dr.Pos(), "single store next = seqno + 1", "after a drop the next expected packet is not seqno+1")
-		okPid := false
-		for _, st := range storesToField(sdr, fNextPid) {
-			if st.Val == pidP {
-				okPid = true
-			}
-		}
-		c.Check(okPid, "R1.1", "Drop: nextPid = pid", dr.Pos(), "nextPid is set to the withheld packet's picture id", "the picture id of the withheld frame is not remembered")
-		// return false => no store reaches it; return true => all stores dominate it
-		ff := eng.Analyze(dr)
-		info := dr.Pkg.TypesInfo
-		var stores []ast.Node
-		ast.Inspect(dr.Body(), func(n ast.Node) bool {
-			switch x := n.(type) {
-			case *ast.AssignStmt:
-				for _, l := range x.Lhs {
-					if sel, ok := unparen(l).(*ast.SelectorExpr); ok && info.Selections[sel] != nil {
-						stores = append(stores, x)
-					}
-				}
-			case *ast.IncDecStmt:
-				if sel, ok := unparen(x.X).(*ast.SelectorExpr); ok && info.Selections[sel] != nil {
-					stores = append(stores, x)
-				}
-			}
-			return true
-		})
-		okFalse := true
-		for _, ret := range ff.Returns() {
-			if tv := info.Types[ret.Results[0]]; tv.Value != nil && tv.Value.String() == "false" {
-				for _, s := range stores {
-					if ff.ReachableFrom(s, ret) {
-						okFalse = false
-					}
-				}
-			}
-		}
-		c.Check(okFalse && len(stores) >= 4, "R1.1", "Drop: a refusal changes nothing", dr.Pos(), fmt.Sprintf("no return false is reachable from any of the %d stores", len(stores)), "Drop can modify the map and then refuse the drop")
-		// R1.2
-		recv := dr.params(info)[0]
-		seq := dr.params(info)[1]
-		want := mkFact(true, "eq", TField(TVar(recv), fNext), TVar(seq))
-		k := newKeyer()
-		for _, s := range stores {
-			st, _ := ff.At(s)
-			ok := st != nil && st.HasFact(want)
-			if !ok && st != nil {
-				// the fact about m.next is killed by the store to m.next itself: accept if it held at the first store
-				ok = false
-				if reach, _ := ff.ReachableNotRefuting(s, factsConj(mkFact(false, "eq", TField(TVar(recv), fNext), TVar(seq)))); !reach {
-					ok = true
-				}
-			}
-			lhs := ""
-			switch x := s.(type) {
-			case *ast.AssignStmt:
-				lhs = types.ExprString(x.Lhs[0])
-			case *ast.IncDecStmt:
-				lhs = types.ExprString(x.X)
-			}
-			c.Check(ok, "R1.2", k.key("Drop: store to", lhs), s.Pos(), "unreachable unless seqno == m.next", "the map is modified for a packet that is not the next in-order one: offsets of already-forwarded packets change retroactively")
-		}
-	}
+	pmDropRules(c, "R1.1", "R1.2")
 
 	pmMappingRules(c, "R1.3")
 
@@ -215,6 +123,23 @@ func runC01(c *Ctx) {
 				okSeq = true
 			}
 			c.Check(okSeq, "R1.4", "the rewritten seqno is the map's result", rpc.Pos(), "RewritePacket(..., newseqno, ...) with newseqno = result #1 of Map", "the number written into the packet is not the one the map handed out")
+			// the rewrite must not touch the caller's buffer: the writer loop hands
+			// the same bytes to the next receiver, which would then parse this
+			// receiver's mapped number as the source number
+			okOwn := false
+			if se, ok := unparen(rpc.Args[1]).(*ast.SliceExpr); ok {
+				if id, ok := unparen(se.X).(*ast.Ident); ok {
+					obj := wr.Pkg.TypesInfo.Uses[id]
+					isParam := false
+					for _, po := range wr.params(wr.Pkg.TypesInfo) {
+						if po != nil && po == obj {
+							isParam = true
+						}
+					}
+					okOwn = obj != nil && !isParam
+				}
+			}
+			c.Check(okOwn, "R1.4", "the mapped number is written into a private copy", rpc.Pos(), "RewritePacket works on a local buffer, not on Write's parameter", "the packet is renumbered in the caller's buffer, which the writer loop passes on to the next receiver: that receiver maps an already mapped number")
 			// the arguments of Drop and Map are the packet's own seqno
 			okArgs := types.ExprString(dropc.Args[0]) == "flags.Seqno" && types.ExprString(mapc.Args[0]) == "flags.Seqno"
 			c.Check(okArgs, "R1.4", "Drop and Map are asked about the packet's own seqno", mapc.Pos(), "flags.Seqno", "the map is consulted with another number than the packet's")
@@ -369,6 +294,25 @@ func pmMappingRules(c *Ctx, rule string) {
 			}
 			return false
 		}
+		fEntries := p.Field("packetmap", "Map", "entries")
+		underNoEntries := func(b *ssa.BasicBlock) bool {
+			for x := b; x != nil; x = x.Idom() {
+				if len(x.Preds) != 1 {
+					continue
+				}
+				pr := x.Preds[0]
+				iff, ok := pr.Instrs[len(pr.Instrs)-1].(*ssa.If)
+				if !ok || pr.Succs[0] != x {
+					continue
+				}
+				if bo, ok := iff.Cond.(*ssa.BinOp); ok && bo.Op == token.EQL && isLoadOfField(bo.X, fEntries) {
+					if k, isC := bo.Y.(*ssa.Const); isC && k.Value == nil {
+						return true
+					}
+				}
+			}
+			return false
+		}
 		afterReset := func(r *ssa.Return) bool {
 			for _, ins := range r.Block().Instrs {
 				if call, ok := ins.(*ssa.Call); ok && call.Call.StaticCallee() != nil && call.Call.StaticCallee().Name() == "reset" {
@@ -408,8 +352,8 @@ func pmMappingRules(c *Ctx, rule string) {
 				switch {
 				case v == seqP:
 					// identity: only while no packet was ever dropped, or after a reset
-					if !underDeltaZero(b) && !afterReset(r) {
-						bad = append(bad, p.PosStr(r.Pos())+" (identity although delta may be non-zero)")
+					if !(underDeltaZero(b) && underNoEntries(b)) && !afterReset(r) {
+						bad = append(bad, p.PosStr(r.Pos())+" (identity although the offset may be non-zero or intervals are recorded)")
 					}
 				default:
 					bo, isB := v.(*ssa.BinOp)
@@ -671,6 +615,112 @@ func pmMappingRules(c *Ctx, rule string) {
 				}
 			}
 			c.Check(okInit && ninit == 3 && firstK == countK, rule, "the first Drop creates the identity interval ending just before seqno", dr.Pos(), fmt.Sprintf("entry{first: seqno-%d, count: %d, delta: 0}", firstK, countK), "the interval created by the first drop does not map the already forwarded packets to themselves up to seqno-1")
+		}
+	}
+}
+
+// pmDropRules decides the transfer function of Drop and that it only acts on
+// the next in-order packet (C01 R1.1/R1.2; C03 uses the same facts: a packet
+// withheld out of order would end up inside a later interval).
+func pmDropRules(c *Ctx, r1, r2 string) {
+	p := c.P
+	dr := p.Func("packetmap", "Map", "Drop")
+	if dr == nil {
+		c.Unknown(r1, "anchor Drop", 0, "packetmap.(*Map).Drop not found")
+		return
+	}
+	fDelta := p.Field("packetmap", "Map", "delta")
+	fNext := p.Field("packetmap", "Map", "next")
+	fNextPid := p.Field("packetmap", "Map", "nextPid")
+	eng := p.Facts()
+	// ---- R1.1 / R1.2 : Drop ----
+	{
+		sdr := p.SSAFunc(dr.Obj)
+		seqP, pidP := ssa.Value(sdr.Params[1]), ssa.Value(sdr.Params[2])
+		// delta' = delta - 1
+		okDelta := false
+		for _, st := range storesToField(sdr, fDelta) {
+			cOld, ok := coeffOf(st.Val, func(v ssa.Value) bool { return isLoadOfField(v, fDelta) }, 0)
+			if bo, isB := st.Val.(*ssa.BinOp); ok && cOld == 1 && isB {
+				if k, isC := bo.Y.(*ssa.Const); isC && bo.Op == token.SUB && k.Int64() == 1 {
+					okDelta = true
+				}
+				if k, isC := bo.Y.(*ssa.Const); isC && bo.Op == token.ADD && k.Int64() == -1 {
+					okDelta = true
+				}
+			}
+		}
+		c.Check(okDelta && len(storesToField(sdr, fDelta)) == 1, r1, "Drop: delta decreases by exactly one", dr.Pos(), "single store delta = delta - 1", "a withheld packet does not shift later numbers by exactly one")
+		okNext := false
+		for _, st := range storesToField(sdr, fNext) {
+			cs, ok := coeffOf(st.Val, func(v ssa.Value) bool { return v == seqP }, 0)
+			if bo, isB := st.Val.(*ssa.BinOp); ok && cs == 1 && isB && bo.Op == token.ADD {
+				if k, isC := bo.Y.(*ssa.Const); isC && k.Int64() == 1 {
+					okNext = true
+				}
+			}
+		}
+		c.Check(okNext && len(storesToField(sdr, fNext)) == 1, r1, "Drop: next = seqno + 1", dr.Pos(), "single store next = seqno + 1", "after a drop the next expected packet is not seqno+1")
+		okPid := false
+		for _, st := range storesToField(sdr, fNextPid) {
+			if st.Val == pidP {
+				okPid = true
+			}
+		}
+		c.Check(okPid, r1, "Drop: nextPid = pid", dr.Pos(), "nextPid is set to the withheld packet's picture id", "the picture id of the withheld frame is not remembered")
+		// return false => no store reaches it; return true => all stores dominate it
+		ff := eng.Analyze(dr)
+		info := dr.Pkg.TypesInfo
+		var stores []ast.Node
+		ast.Inspect(dr.Body(), func(n ast.Node) bool {
+			switch x := n.(type) {
+			case *ast.AssignStmt:
+				for _, l := range x.Lhs {
+					if sel, ok := unparen(l).(*ast.SelectorExpr); ok && info.Selections[sel] != nil {
+						stores = append(stores, x)
+					}
+				}
+			case *ast.IncDecStmt:
+				if sel, ok := unparen(x.X).(*ast.SelectorExpr); ok && info.Selections[sel] != nil {
+					stores = append(stores, x)
+				}
+			}
+			return true
+		})
+		okFalse := true
+		for _, ret := range ff.Returns() {
+			if tv := info.Types[ret.Results[0]]; tv.Value != nil && tv.Value.String() == "false" {
+				for _, s := range stores {
+					if ff.ReachableFrom(s, ret) {
+						okFalse = false
+					}
+				}
+			}
+		}
+		c.Check(okFalse && len(stores) >= 4, r1, "Drop: a refusal changes nothing", dr.Pos(), fmt.Sprintf("no return false is reachable from any of the %d stores", len(stores)), "Drop can modify the map and then refuse the drop")
+		// R1.2
+		recv := dr.params(info)[0]
+		seq := dr.params(info)[1]
+		want := mkFact(true, "eq", TField(TVar(recv), fNext), TVar(seq))
+		k := newKeyer()
+		for _, s := range stores {
+			st, _ := ff.At(s)
+			ok := st != nil && st.HasFact(want)
+			if !ok && st != nil {
+				// the fact about m.next is killed by the store to m.next itself: accept if it held at the first store
+				ok = false
+				if reach, _ := ff.ReachableNotRefuting(s, factsConj(mkFact(false, "eq", TField(TVar(recv), fNext), TVar(seq)))); !reach {
+					ok = true
+				}
+			}
+			lhs := ""
+			switch x := s.(type) {
+			case *ast.AssignStmt:
+				lhs = types.ExprString(x.Lhs[0])
+			case *ast.IncDecStmt:
+				lhs = types.ExprString(x.X)
+			}
+			c.Check(ok, r2, k.key("Drop: store to", lhs), s.Pos(), "unreachable unless seqno == m.next", "the map is modified for a packet that is not the next in-order one: offsets of already-forwarded packets change retroactively")
 		}
 	}
 }
